@@ -98,7 +98,64 @@ def reference_route(table: List[Dict[str, Any]], path: bytes) -> Optional[Dict[s
     return None
 
 
+def run_early_answer(case: Dict[str, Any]) -> Dict[str, Any]:
+    """The upstream answers before it has read the request (413 / 401 / 100-less refusal right after the head) and then stops
+    reading, while the client is still uploading a body far larger than the socket buffers: the upstream's response is relayed
+    unmodified all the same."""
+    rng = random.Random('c12e:%s:%s' % (case['seed'], case['i']))
+    shim.S.reset()
+    flags = flags_for(case['rewrite'])
+    rig = StepRig(flags, case.get('mode', 'local'))
+    viol: List[Dict[str, Any]] = []
+    obs: Dict[str, int] = {'early_answer_cases': 1}
+    try:
+        del _table[:]
+        ip = '127.%d.%d.%d' % (rng.randint(1, 250), rng.randint(0, 250), rng.randint(2, 250))
+        o = Origin(ip, 0)
+        rig.origins.append(o)
+        _table.append({'kind': 'static', 'regex': r'/up/', 'urls': [b'http://%s/store' % o.hostport], 'targets': []})
+        resolver.reset({})
+        client = rig.add_client(case.get('transport', 'tcp'))
+        body = G.coded(b'U', case['upload'])
+        raw = b'POST /up/x HTTP/1.1\r\nHost: front.example\r\nContent-Length: %d\r\n\r\n' % len(body) + body
+        resp = b'HTTP/1.1 %s\r\nContent-Length: 9\r\nX-Early: 1\r\n\r\ntoo-large' % case['status'].encode()
+        st: Dict[str, Any] = {'sent': 0, 'oc': None, 'answered': False}
+
+        def tick() -> bool:
+            if st['sent'] < len(raw):
+                n = client.send(raw[st['sent']:st['sent'] + 262144])
+                if n > 0:
+                    st['sent'] += n
+            if st['oc'] is None:
+                st['oc'] = o.accept()
+            oc = st['oc']
+            if oc is not None and not st['answered']:
+                oc.pump(4096)
+                if b'\r\n\r\n' in oc.rx:
+                    oc.send(resp)
+                    st['answered'] = True       # ... and it never reads again
+            client.pump()
+            return len(client.rx) >= len(resp) or client.ended
+        rig.until(tick, [], idle_timeout=2.0, max_stall=8.0, max_wall=60.0)
+        got = bytes(client.rx)
+        if not st['answered']:
+            return {'viol': [], 'inconclusive': 'origin-never-saw-the-head', 'obs': obs, 'sig': 'early', 'nontrivial': True}
+        if got != resp:
+            viol.append({'key': 'static|early-upstream-answer|response-not-relayed-unmodified',
+                         'detail': {'diff': monitors.diff_streams(resp, got), 'uploaded': st['sent'], 'upload_size': len(raw), 'client_ended': client.ended}})
+        else:
+            obs['early_answers_relayed'] = 1
+    except LoopDied as e:
+        viol.append({'key': 'early-upstream-answer|loop-died:%s' % e.where(), 'detail': {'tb': e.tb[-1000:]}})
+    finally:
+        rig.close()
+        del _table[:]
+    return {'viol': viol, 'nontrivial': True, 'sig': 'early/%s/%d' % (case['status'], case['upload']), 'obs': obs, 'sample': {'case': case}}
+
+
 def run_case(case: Dict[str, Any]) -> Dict[str, Any]:
+    if case.get('kind') == 'early-answer':
+        return run_early_answer(case)
     rng = random.Random('c12:%s:%s' % (case['seed'], case['i']))
     shim.S.reset()
     rewrite = case['rewrite']
@@ -331,6 +388,9 @@ def run_case(case: Dict[str, Any]) -> Dict[str, Any]:
 def cases(tier: str, seed: int):
     rng = random.Random('c12cases:%d' % seed)
     n = 2500 if tier == 'quick' else 40000
+    for k in range(8 if tier == 'quick' else 80):
+        yield {'seed': seed, 'i': 900000 + k, 'kind': 'early-answer', 'upload': [8 << 20, 12 << 20][k % 2], 'status': [b'413 Payload Too Large', b'401 Unauthorized'][k % 2].decode(),
+               'rewrite': k % 2 == 0, 'transport': ['tcp', 'unix'][k % 2], 'mode': 'local' if k % 3 else 'remote'}
     for i in range(n):
         routes = []
         used = set()
@@ -400,7 +460,7 @@ def floors(tier: str) -> Dict[str, int]:
     return {'routed_checked': 300, 'unrouted_checked': 100, 'literal_checked': 30, 'match:several': 30, 'rewrite:True': 100,
             'rewrite:False': 100, 'distinct:url_shapes': 8, 'distinct:choices': 4,
             'large_relays_checked': 20, 'slow_reader_relays_checked': 15, 'nonkeepalive_followups_checked': 60,
-            'nonkeepalive_after_literal_checked': 30, 'https_upstream_urls': 100, 'large_uploads_checked': 20, 'large_uploads_to_tls_upstream_checked': 8}
+            'nonkeepalive_after_literal_checked': 30, 'https_upstream_urls': 100, 'large_uploads_checked': 20, 'large_uploads_to_tls_upstream_checked': 8, 'early_answers_relayed': 5}
 
 
 if __name__ == '__main__':
